@@ -24,6 +24,17 @@ u32 RS_pthread_mutex_unlock(int tid, u8 *m);
 void RS__ZNSt18condition_variable4waitERSt11unique_lockISt5mutexE_begin(int tid, u8 *cv, u8 *lk);
 int RS_ENABLED__ZNSt18condition_variable4waitERSt11unique_lockISt5mutexE_end(int tid, u8 *cv, u8 *lk);
 void RS__ZNSt18condition_variable4waitERSt11unique_lockISt5mutexE_end(int tid, u8 *cv, u8 *lk);
+/* timed condition waits (std::condition_variable::wait_for / wait_until -> pthread_cond_clockwait / pthread_cond_timedwait): like wait,
+   but the time-out may fire at ANY moment (threads may be arbitrarily slow), so the second step is enabled as soon as the mutex is free;
+   it returns ETIMEDOUT if the thread was not notified.  steady_clock::now() is an arbitrary value. */
+#define RS_ENABLED_pthread_cond_clockwait_begin(tid, c, m, clk, ts) 1
+void RS_pthread_cond_clockwait_begin(int tid, u8 *c, u8 *m, u32 clk, u8 *ts);
+int RS_ENABLED_pthread_cond_clockwait_end(int tid, u8 *c, u8 *m, u32 clk, u8 *ts);
+u32 RS_pthread_cond_clockwait_end(int tid, u8 *c, u8 *m, u32 clk, u8 *ts);
+#define RS_ENABLED_pthread_cond_timedwait_begin(tid, c, m, ts) 1
+#define RS_pthread_cond_timedwait_begin(tid, c, m, ts) RS_pthread_cond_clockwait_begin(tid, c, m, 0, ts)
+#define RS_ENABLED_pthread_cond_timedwait_end(tid, c, m, ts) RS_ENABLED_pthread_cond_clockwait_end(tid, c, m, 0, ts)
+#define RS_pthread_cond_timedwait_end(tid, c, m, ts) RS_pthread_cond_clockwait_end(tid, c, m, 0, ts)
 /* std::thread */
 #define RS_ENABLED__ZNSt6thread15_M_start_threadESt10unique_ptrINS_6_StateESt14default_deleteIS1_EEPFvvE(tid, thr, st, fn) 1
 void RS__ZNSt6thread15_M_start_threadESt10unique_ptrINS_6_StateESt14default_deleteIS1_EEPFvvE(int tid, u8 *thr, u8 *st, u8 *fn);
